@@ -100,14 +100,22 @@ def run_case(ctx, case):
                             tk = [x[1] for x in oa.state.obs if x[0] == "tok"]
                             ids = [x[1] for x in oa.state.obs if x[0] == "ident"]
                             cb, pb = dec_fields(ob.value.fields[0])
-                            if len(tk) != 2 or ids != ["Decimal", "new_raw"]:
+                            # the emitted expression is Decimal::new_raw(<int literal>[ as i128], <int literal>[ as u8]): the literals' VALUES must be
+                            # from_str's coefficient and scale (a literal of a narrower type followed by a widening `as` keeps its value;
+                            # a value wrapped by an `as` inside the macro shows up as a different literal value)
+                            core_ids = [x for x in ids if x in ("Decimal", "new_raw")]
+                            rest = [x for x in ids if x not in ("Decimal", "new_raw")]
+                            casts_ok = len(rest) % 2 == 0 and all(rest[i] == "as" and rest[i + 1] in INT_TYPES for i in range(0, len(rest) - 1, 2))
+                            tk = [x for x in tk if isinstance(x, IV)]       # interpolated sub-streams are not literals
+                            if len(tk) != 2 or core_ids != ["Decimal", "new_raw"] or not casts_ok:
                                 goal = False
                             else:
-                                goal = z3.And(T.B(T.eq(tk[0].t, cb)), T.B(T.eq(tk[1].t, pb)), T.B(tk[0].ty == "i128" and tk[1].ty == "u8"))
+                                goal = z3.And(T.B(T.eq(tk[0].t, cb)), T.B(T.eq(tk[1].t, pb)))
                     # counterexample selection: str_to_dec never returns a zero coefficient with a positive exponent, a literal after '-'
                     # has a non-positive coefficient, and exponents beyond a few digits only bloat the replayed literal
                     prefer = [c.t != 0, e.t <= 400, e.t >= -400] + ([c.t < 0] if sign_branch else [])
-                    r = res.vc(ctx, name, ob.state.pruned_constraints(goal), goal, {"c": c.t, "e": e.t}, {"kind": "diff", "blank": sign_branch}, prefer=prefer)
+                    dbg = {"idents": [str(x[1]) for x in oa.state.obs if x[0] == "ident"][:8], "tokens": [repr(x[1])[:60] for x in oa.state.obs if x[0] == "tok"][:4]} if oa.kind == "return" else {}
+                    r = res.vc(ctx, name, ob.state.pruned_constraints(goal), goal, {"c": c.t, "e": e.t}, dict({"kind": "diff", "blank": sign_branch}, **dbg), prefer=prefer)
                     if ia < 2 and ib == 0:
                         res.sample({"vc": name, "status": r.status, "time_s": round(r.time, 4)})
         return res.done()
